@@ -270,6 +270,47 @@ def conforms(value, typ) -> Optional[str]:
     return f"unknown-type:{typ!r}"
 
 
+def has_value(var) -> bool:
+    """Does the Var carry a propagated value? Through `Var._get_value()` (the documented accessor;
+    raises ValueError when there is none), falling back to the `_value` field."""
+    try:
+        var._get_value()
+        return True
+    except ValueError:
+        return False
+    except AttributeError:
+        return getattr(var, "_value") is not None
+
+
+def conforms_var(var) -> Optional[str]:
+    """Conformance of the Var's propagated value to `var.type` (None = conforms)."""
+    if var.type is None:
+        return "untyped-var"
+    pv = getattr(var, "_value", None)
+    if pv is not None and hasattr(pv, "value"):
+        return conforms(pv.value, var.type)
+    return conforms_ort(var._get_value(), var.type)
+
+
+def conforms_ort(value, typ) -> Optional[str]:
+    """Same judgement on the ORT-format value (`Var._get_value()`): arrays, lists, None."""
+    from spox import Optional as SOptional, Sequence as SSequence, Tensor
+
+    if isinstance(typ, Tensor):
+        return conforms(value, typ)
+    if isinstance(typ, SSequence):
+        if not isinstance(value, list):
+            return f"seq-type:{type(value).__name__}"
+        for x in value:
+            why = conforms_ort(x, typ.elem_type)
+            if why:
+                return "elem-" + why
+        return None
+    if isinstance(typ, SOptional):
+        return None if value is None else conforms_ort(value, typ.elem_type)
+    return f"unknown-type:{typ!r}"
+
+
 def more_permissive(faulty, free) -> bool:
     """`faulty` says no more than `free` (equal, or some rank / dimension / the whole type unknown)."""
     from spox import Optional as SOptional, Sequence as SSequence, Tensor
